@@ -259,6 +259,82 @@ def c16_end_to_end(case):
         return ok()
 
 
+
+# ---------------------------------------------------------------------------
+# step lemmas (C01 / C02): concrete re-evaluation on the pristine functions
+
+
+def lemma_state_fn(case):
+    from selfies import grammar_rules as gr
+    fn, args = case["fn"], case["args"]
+    pid = case.get("prop", "C01")
+    if fn == "next_atom_state":
+        bo, cap, st = args
+        o, nxt = gr.next_atom_state(bo, cap, st)
+        want = 0 if st == 0 else min(bo, st, cap)
+        good = (o == want) and ((nxt is None and cap - o == 0) or (nxt is not None and nxt == cap - o and nxt > 0))
+    elif fn == "next_branch_state":
+        bt, st = args
+        b, nxt = gr.next_branch_state(bt, st)
+        good = (b == min(st - 1, bt)) and nxt is not None and nxt >= 1 and b + nxt == st
+        o = (b, nxt)
+    else:
+        rt, st = args
+        o, nxt = gr.next_ring_state(rt, st)
+        good = (o == min(rt, st)) and ((nxt is None and st - o == 0) or (nxt is not None and nxt == st - o and nxt > 0))
+    if good:
+        return ok()
+    return bad("%s:state-fn:%s" % (pid, fn), "%s%r returned %r, which breaks the documented state rule" % (fn, tuple(args), (o, nxt)))
+
+
+def lemma_ring_step(case):
+    from selfies import mol_graph as mg, decoder as _d
+    import sys
+    dec = sys.modules["selfies.decoder"]
+    p = case["pre"]
+    pid = case.get("prop", "C01")
+    if not set_table({"C": p["capA"], "N": p["capB"], "?": 8}):
+        return ok("table rejected")
+    try:
+        mol = mg.MolecularGraph()
+        a = mol.add_atom(mg.Atom("C", False), True)
+        mol.add_atom(mg.Atom("C", False))
+        b = mol.add_atom(mg.Atom("N", False))
+        if p["shape"] == 1:
+            mol.add_bond(src=0, dst=2, order=p["eord"], stereo=None)
+        elif p["shape"] == 2:
+            mol.add_ring_bond(a=0, b=2, order=p["eord"], a_stereo=None, b_stereo=None)
+        mol._bond_counts[0] = p["cntA"]
+        mol._bond_counts[2] = p["cntB"]
+        nobj0 = len(mol._bond_dict)
+        tgt = a if p["shape"] == 3 else b
+        dec._form_rings_bilocally(mol, [(a, tgt, (p["rord"], (None, None)))])
+        ca, cb = mol.get_bond_count(0), mol.get_bond_count(2)
+        d = ca - p["cntA"]
+        probs = []
+        if ca > p["capA"] or cb > p["capB"]:
+            probs.append("capacity exceeded")
+        if d < 0 or cb - p["cntB"] != d:
+            probs.append("bond counts changed inconsistently")
+        if p["shape"] == 3 and (d != 0 or len(mol._bond_dict) != nobj0):
+            probs.append("ring to self changed the graph")
+        if p["shape"] != 3:
+            if mol.has_bond(0, 2):
+                o = mol.get_dirbond(0, 2).order
+                old = p["eord"] if p["shape"] in (1, 2) else 0
+                if not (1 <= o <= 3) or o - old != d:
+                    probs.append("bond order %r inconsistent with counts" % o)
+                n02 = len([x for x in mol._adj_list[0] if x is not None and x.dst == 2])
+                if n02 != 1 or len(mol._bond_dict) not in (1, 2):
+                    probs.append("duplicate bond objects")
+            elif d != 0:
+                probs.append("counts changed without a bond")
+        if probs:
+            return bad("%s:ring-step" % pid, "_form_rings_bilocally on pre-state %r: %s (counts after: %r, %r)" % (p, "; ".join(probs), ca, cb))
+        return ok()
+    finally:
+        reset_table()
+
 # ---------------------------------------------------------------------------
 
 KINDS = {
@@ -267,6 +343,8 @@ KINDS = {
     "encoder_total": c09_encoder_total,
     "index": c16_index,
     "index_e2e": c16_end_to_end,
+    "state_fn": lemma_state_fn,
+    "ring_step": lemma_ring_step,
 }
 
 
